@@ -978,7 +978,7 @@ func ruleRotate(r *Report) {
 	if fn := r.NeedFunc(rule, "recordio.FileWriter.Close"); fn != nil {
 		F := CallsIn(fn, Suffix("WriteSeekerCloserFlusher.Flush", "Writer.Flush"))
 		C := CallsIn(fn, Keys("os.File.Close"))
-		o.OnlyAfterSuccess(rule, rule+"/recordio.FileWriter.Close/flush-before-close", fn, "Flush", F, "file.Close", C, nil)
+		o.OnlyAfterSuccess(rule, rule+"/recordio.FileWriter.Close/flush-before-close", fn, "Flush", F, "file.Close", onSuccessPath(fn, C), nil)
 	}
 }
 
@@ -1761,4 +1761,79 @@ func ascendingCounter(idx ssa.Value) bool {
 		}
 	}
 	return true
+}
+
+// onSuccessPath keeps the sites from which a success (nil error) return of fn is reachable. A handle that is closed on
+// an error exit, next to the error being reported, is not part of the success ordering.
+func onSuccessPath(fn *ssa.Function, sites []Site) []Site {
+	var out []Site
+	for _, s := range sites {
+		for _, nr := range nilReturns(fn) {
+			if reachableFromSite(s, nr) {
+				out = append(out, s)
+				break
+			}
+		}
+	}
+	return out
+}
+
+// R-finish-rename-last: finishing an interrupted compaction at Open removes the inputs and moves the merged table into
+// the oldest input's slot. The success flag — the only record of which inputs still have to go — lives inside the
+// compaction folder, so the rename that moves that folder away must be the LAST step: a kill after the rename and
+// inside the removal of a remaining input leaves a half-deleted table and nothing that says so; every later Open then
+// tries to load it and fails (or loads it as a legacy table and serves parse errors).
+func ruleFinishRenameLast(r *Report) {
+	const rule = "finish-rename-last"
+	r.Rule(rule, 1, "in repairCompactions no removal of a compaction input is reachable from the rename of the compaction folder within the handling of one compaction (the flag file travels with the rename; inputs are removed first, the rename comes last, as in the online path)")
+	p := r.P
+	fn := r.NeedFunc(rule, "simpledb.DB.repairCompactions")
+	if fn == nil {
+		return
+	}
+	key := rule + "/simpledb.DB.repairCompactions"
+	renames := CallsIn(fn, Keys("os.Rename"))
+	if len(renames) == 0 {
+		r.Missing(rule, key, "repairCompactions does not rename the compaction folder")
+		return
+	}
+	bad := ""
+	for _, rn := range renames {
+		// the outermost loop around the rename: remove its back edges so that "reachable" means "in the same iteration"
+		removed := map[Edge]bool{}
+		var hdr *ssa.BasicBlock
+		for _, b := range liveBlocks(fn) {
+			if b.Dominates(rn.Block) && b != rn.Block && reachFrom(rn.Block, nil)[b] {
+				if hdr == nil || b.Dominates(hdr) {
+					hdr = b
+				}
+			}
+		}
+		if hdr != nil {
+			for _, pr := range hdr.Preds {
+				if reachFrom(hdr, nil)[pr] && hdr.Dominates(pr) {
+					removed[Edge{pr, hdr}] = true
+				}
+			}
+		}
+		after := map[*ssa.BasicBlock]bool{}
+		for _, su := range rn.Block.Succs {
+			if removed[Edge{rn.Block, su}] {
+				continue
+			}
+			for b := range reachFrom(su, removed) {
+				after[b] = true
+			}
+		}
+		for _, rm := range removalSites(p, fn) {
+			if rm.Block == rn.Block && rm.Idx > rn.Idx || after[rm.Block] {
+				bad = fmt.Sprintf("the removal at %s is reachable after the rename at %s", p.Pos(rm.Pos()), p.Pos(rn.Pos()))
+			}
+		}
+	}
+	if bad != "" {
+		r.Bad(rule, key, renames[0].Pos(), bad+": the rename takes the success flag out of the place the next Open looks for it; a kill inside the removal of a remaining input (one unlink per file, then rmdir) leaves a half-deleted table that no recovery step knows about — every later Open fails on it (EOF reading index.rio), or loads it as a legacy table when meta.pb.bin went first")
+	} else {
+		r.OK(rule, key, renames[0].Pos(), "the rename is the last step of finishing a compaction")
+	}
 }
